@@ -37,6 +37,10 @@ type RawClientSc struct {
 	// Refused: the server's connect hook refuses this connection. The client sends its first request (if any) and
 	// then only reads: the server must end the connection by itself
 	Refused bool `json:"refused,omitempty"`
+	// Hello (TLS listener only): what the client makes of the handshake: "" it sends its hello and goes on |
+	// "silent" it connects and says nothing | "partial" it sends half a hello and stops | "garbage" it sends
+	// something else and reads until the server hangs up. The last three stay connected until the end of the run
+	Hello string `json:"hello,omitempty"`
 }
 
 type ConnFault struct {
@@ -55,10 +59,13 @@ type C08Sc struct {
 	// StalledShutdown: clients that stopped reading (or are stuck writing) stay connected while the server is
 	// shut down; Shutdown must still return (forced cancellation after the grace period) and nothing may remain
 	StalledShutdown bool `json:"stalled_shutdown,omitempty"`
+	// TLS: the listener hands out (simulated) TLS connections: each server-side connection starts with a handshake
+	// that waits for the client's hello
+	TLS bool `json:"tls,omitempty"`
 }
 
 var c08Outcomes = []string{"ok", "ok", "ok", "et", "ep", "pe", "ps", "pS", "pi", "pn", "y2,ok", "sl300,ok", "sL300,ok", "sl5000,ok", "sL5000,ok", "y3,et",
-	"pk", "pK", "pm", "sl2000,ps", "sl5000,pn", "sL300,pe", "sl3000,cx,pk", "y2,pm"}
+	"pk", "pK", "pm", "sl2000,ps", "sl5000,pn", "sL300,pe", "sl3000,cx,pk", "y2,pm", "nn", "y1,nn"}
 
 func genSrvReq(g *simrt.Tape) *ReqSc {
 	rs := &ReqSc{Version: g.Draw(5), Option: g.Draw(3), Hdr: genHdr(g), IDs: genIDs(g)}
@@ -165,6 +172,14 @@ func genC08(g *simrt.Tape, tier string) any {
 		}
 	}
 	sc.StalledShutdown = g.Draw(4) == 0
+	if g.Draw(4) == 0 {
+		sc.TLS = true
+		for i := range sc.Clients {
+			if !sc.Clients[i].Canary && g.Draw(3) == 0 {
+				sc.Clients[i].Hello = []string{"silent", "partial", "garbage"}[g.Draw(3)]
+			}
+		}
+	}
 	return sc
 }
 
@@ -307,6 +322,33 @@ func (w *serverWorld) runRawClient(sc *C08Sc, rc *rawClient) {
 	rc.conn = conn
 	st := ttlv.NewStream(conn, 0)
 	nreq := 0
+	if sc.TLS {
+		switch rc.sc.Hello {
+		case "":
+			_, _ = conn.Write([]byte(simnet.ClientHello))
+		case "silent", "partial":
+			// stays connected and never completes the handshake: it is owed nothing, and it must not be in anybody's way
+			s.Fault("tls-peer-" + rc.sc.Hello)
+			if rc.sc.Hello == "partial" {
+				_, _ = conn.Write([]byte(simnet.ClientHello[:2]))
+			}
+			rc.brokeIt = true
+			rc.done = true
+			rc.doneAt = s.Now() - s.Jumped()
+			return
+		default:
+			s.Fault("tls-peer-garbage")
+			_, _ = conn.Write([]byte("\x00\x01\x02\x03garbage"))
+			var resp kmip.ResponseMessage
+			for st.Recv(&resp) == nil {
+			}
+			rc.brokeIt = true
+			_ = conn.Close()
+			rc.done = true
+			rc.doneAt = s.Now() - s.Jumped()
+			return
+		}
+	}
 	if rc.sc.Refused {
 		s.Fault("connect-hook-refusal")
 		for _, a := range rc.sc.Acts {
@@ -501,6 +543,7 @@ func execC08(x *X, scAny any) {
 			})
 		}
 	}
+	w.tls = sc.TLS
 	w.startServerWith(func(name string) simnet.EP {
 		ep := simnet.EP{Chunk: sc.Chunk, Capacity: sc.Capacity}
 		var idx int
